@@ -220,6 +220,23 @@ def reprove_with_carve_out(kf, v):
     return False
 
 
+_P = None
+
+
+def inlined_hashes(names):
+    """source hashes of the helper functions a unit inlines (a change there changes the unit's obligations)"""
+    from pyvc.frontend import Program
+    global _P
+    if _P is None:
+        _P = Program()
+    out = {}
+    for n in names:
+        fi = _P.get(n)
+        if fi is not None:
+            out[n] = fi.src_hash
+    return out
+
+
 def update_ledger(argv):
     from pyvc import run
     import contracts.properties as props
@@ -231,7 +248,7 @@ def update_ledger(argv):
     results = run.run_units(units, use_cvc5=True)
     led = {}
     for r in results:
-        led[r["unit"]] = dict(src_hash=r["src_hash"], status=r["status"],
+        led[r["unit"]] = dict(src_hash=r["src_hash"], status=r["status"], inlined=inlined_hashes(r.get("inlined", [])),
                               obligations={o["id"]: o["verdict"] for o in r["obligations"]})
     os.makedirs(os.path.join(HERE, "baseline"), exist_ok=True)
     with open(os.path.join(HERE, "baseline", "obligations.json"), "w") as f:
